@@ -13,7 +13,7 @@ SEQ_NOTE = ("Trusted: the abstraction function (harness/cachereplay.go observe/t
             "TLC. Small-scope: <=3 directories, <=3 Spec names, 2 devices, <=3 kinds, histories <=12 operations.")
 claim("C01", "model_checking",
       "TLC checks exhaustively, over every directory list x population x short history of a bounded universe, that the refresh algorithm as coded (ascending scan, conflict set) computes exactly the declarative precedence rule (PrecedenceOK); every enumerated population and thousands of seeded random histories are then executed on the real Cache and the whole query API (devices, winning file, priority, content version, vendors, classes, Specs) compared with the model after NewCache and after every Refresh. In the other direction every refresh recorded (verif build, CDI_VERIF_TRACE) during the replay and during the repository's own pkg/cdi test suite is validated by TLC against RefreshTrace: the index must be what the precedence rule yields for the population the scan saw.",
-      SEQ_NOTE, "TLA+ spec CacheSeq/Resolve model-checked with TLC; behaviours replayed into the real Cache; recorded refreshes (replay + repository tests) trace-validated against RefreshTrace", "5 C01, 4.1, 4.2", "cacheseq")
+      SEQ_NOTE, "TLA+ spec CacheSeq/Resolve model-checked with TLC; behaviours replayed into the real Cache; recorded refreshes (replay + repository tests) trace-validated against RefreshTrace; inductive invariant of the scan for arbitrary priorities discharged by Apalache (ScanInd)", "5 C01, 4.1, 4.2", "cacheseq")
 claim("C13", "model_checking",
       "Same state machine with faults at every position (syntax/semantic/empty/dangling files, directory missing, a file, below a file): TLC checks IsolationOK and the replay compares devices, GetErrors key set (must/may bounds), GetSpecErrors consistency and Refresh()'s error against the model after every refresh, including repairs; the auto-refresh histories are also executed with 'missing' concretised as ENOTDIR (a path below a regular file).",
       SEQ_NOTE + " Unreadable (EACCES) files and directories are replayed by a harness process that has switched to uid 65534 (needs the check to start as root, as in this sandbox; started unprivileged it runs as it is).", "TLA+ spec CacheSeq (fault placements, incl. permission faults) model-checked with TLC; behaviours replayed into the real Cache", "5 C13", "cacheseq")
